@@ -60,3 +60,80 @@ Proof.
 Qed.
 
 End Guard.
+
+(* ---- format selection ------------------------------------------------------------------------------------------ *)
+Local Open Scope N_scope.
+
+Lemma lower_b_idem : forall c, lower_b (lower_b c) = lower_b c.
+Proof.
+  intro c. unfold lower_b.
+  destruct ((65 <=? c) && (c <=? 90)) eqn:E; [|rewrite E; reflexivity].
+  apply andb_true_iff in E. destruct E as [A B]. apply N.leb_le in A. apply N.leb_le in B.
+  assert (H : (c + 32 <=? 90) = false) by (apply N.leb_gt; lia).
+  rewrite H, andb_false_r. reflexivity.
+Qed.
+
+Lemma lower_idem : forall s, lower (lower s) = lower s.
+Proof. intro s. unfold lower. rewrite map_map. apply map_ext. apply lower_b_idem. Qed.
+
+Lemma lower_b_slash : forall c, (lower_b c =? 47) = (c =? 47).
+Proof.
+  intro c. unfold lower_b. destruct ((65 <=? c) && (c <=? 90)) eqn:E; [|reflexivity].
+  apply andb_true_iff in E. destruct E as [A B]. apply N.leb_le in A. apply N.leb_le in B.
+  assert (H1 : (c + 32 =? 47) = false) by (apply N.eqb_neq; lia).
+  assert (H2 : (c =? 47) = false) by (apply N.eqb_neq; lia).
+  rewrite H1, H2. reflexivity.
+Qed.
+
+Lemma base_name_lower : forall s acc, base_name (lower acc) (lower s) = lower (base_name acc s).
+Proof.
+  induction s as [|c r IH]; intro acc; cbn [lower map base_name]; [reflexivity|].
+  fold (lower r). rewrite lower_b_slash. destruct (c =? 47).
+  - apply (IH []).
+  - rewrite <- IH. f_equal. unfold lower. rewrite map_app. reflexivity.
+Qed.
+
+(* only the letters' case-folded form matters: SCENARIO.HCL is scenario.hcl *)
+Lemma format_of_lower : forall n, format_of (lower n) = format_of n.
+Proof.
+  intro n. unfold format_of. change (base_name [] (lower n)) with (base_name (lower []) (lower n)).
+  rewrite (base_name_lower n []). rewrite lower_idem. reflexivity.
+Qed.
+
+Definition no_slash (e : str) : bool := forallb (fun c => negb (c =? 47)) e.
+
+Lemma base_name_no_slash : forall e acc, no_slash e = true -> base_name acc e = acc ++ e.
+Proof.
+  induction e as [|c r IH]; intros acc H; cbn [base_name]; [rewrite app_nil_r; reflexivity|].
+  cbn [no_slash forallb] in H. apply andb_true_iff in H. destruct H as [Hc Hr].
+  destruct (c =? 47); [discriminate|]. rewrite (IH _ Hr). rewrite <- app_assoc. reflexivity.
+Qed.
+
+Lemma base_name_app : forall e, no_slash e = true -> forall n acc, base_name acc (n ++ e) = base_name acc n ++ e.
+Proof.
+  intros e He. induction n as [|c r IH]; intro acc; cbn [app base_name].
+  - apply base_name_no_slash. exact He.
+  - destruct (c =? 47); apply IH.
+Qed.
+
+Lemma lower_app : forall a b, lower (a ++ b) = lower a ++ lower b.
+Proof. intros. unfold lower. apply map_app. Qed.
+
+(* a name ending in .hcl is read by the HCL front-end; in .yaml or .yml by the YAML one -- whatever precedes *)
+Lemma format_of_ext : forall n,
+  format_of (n ++ ext_hcl) = Some FHcl /\ format_of (n ++ ext_yaml) = Some FYaml /\ format_of (n ++ ext_yml) = Some FYaml.
+Proof.
+  intro n. unfold format_of.
+  rewrite !base_name_app by reflexivity. rewrite !lower_app.
+  unfold has_suffix. rewrite !rev_app_distr. repeat split; reflexivity.
+Qed.
+
+(* whatever the file is called, the two syntaxes are read through the one entry point *)
+Lemma read_file_cases : forall dv sch root name t hv r,
+  read_file dv sch root name t hv = Ok r ->
+  (format_of name = Some FHcl /\ read_hcl dv sch root hv = Ok r) \/
+  (format_of name = Some FYaml /\ read_yaml dv sch t = Ok r).
+Proof.
+  intros dv sch root name t hv r H. unfold read_file in H. destruct name as [|c n]; [discriminate|].
+  destruct (format_of (c :: n)) as [[|]|]; [left|right|discriminate]; split; auto.
+Qed.
